@@ -92,7 +92,7 @@ class Ctx:
         self.events = []
         self.trusted = set()
         self.solver = z3.Solver()
-        self.solver.set('rlimit', 3000000)
+        self.solver.set('rlimit', 600000)
         self.solver.set('timeout', 30000)   # safety net only: the deterministic rlimit is the effective bound
         self.full_solver = z3.Solver()
         self.full_solver.set('rlimit', 400000)
